@@ -191,6 +191,26 @@ def run(res):
 
     # chunked continuous == gapped representation (same filters), and model correspondence in all modes
     def oracle(cfg, ops, reports, files, chdir, mrep, mfiles, hist):
+        if cfg.cont and not cfg.chunk and all(r[0] in (0, 1) for r in reports):
+            # the property itself on an arbitrary history (empty writes, multi-block calls, refused calls):
+            # every file is one full block; written slots hold their value, every other slot the missing value
+            m = wl.abs_of_history(cfg, ops, reports)
+            exp = wl.expected_with_fill(cfg, m)
+            res.count("history-fill-oracle")
+            for f in files:
+                if f["tmp"]:
+                    continue
+                lo, hi = wl.file_start(cfg, f["ms"]), wl.file_start(cfg, f["ms"] + cfg.fc)
+                if [tuple(r) for r in f["rows"]] != [(lo, 0)] or f["data"].shape[0] != hi - lo:
+                    res.violation("not-one-full-block", "a continuous file does not expose every slot of its window as a single block",
+                                  dict(hist, file=f["name"]), [[(lo, 0)], hi - lo], [f["rows"], f["data"].shape[0]])
+                    return
+                tags = [exp.get(k, -1) for k in range(lo, hi)]
+                if not wl.arrays_equal(cfg, wl.enc(cfg, tags), f["data"]):
+                    res.violation("fill-or-data-misplaced", "a continuous file does not hold the written values at the written "
+                                  "slots and the missing value everywhere else", dict(hist, file=f["name"]),
+                                  "values at their slots, missing value elsewhere", "differs")
+                    return
         if cfg.cont and cfg.chunk:
             g = wl.Cfg(cfg.n, cfg.d, cfg.sc, cfg.fc, cfg.start, False, cfg.comp, cfg.cksum, cfg.kind, cfg.size,
                        cfg.order, cfg.is_complex, cfg.nsub)
